@@ -6,12 +6,12 @@ Open Scope list_scope.
 
 Arguments step : simpl never.
 
-Definition work_plain (t : task) : Prop := forall o, In o (t_work t) -> has_weights o = false.
+Definition work_plain (e : env) (t : task) : Prop := forall o, In o (t_work t) -> forces_enable e o = false.
 
 (* ------------------------------------------------------------------ sync is an execution *)
 
 Lemma run_work_exec e os : forall s,
-  (forall o, In o os -> has_weights o = false) ->
+  (forall o, In o os -> forces_enable e o = false) ->
   exec e false s (snd (fst (run_work e s os))) (fst (fst (run_work e s os))).
 Proof.
   induction os as [|o os IH]; intros s Hw; cbn; [apply x_nil|].
@@ -25,11 +25,11 @@ Lemma update_all_exec e t s :
   exec e false s (snd (fst (update_all e t s))) (fst (fst (update_all e t s))).
 Proof.
   unfold update_all.
-  pose proof (step_exec e s (OUpdateConfig (t_mainver t) (t_all t))) as H1. cbn [has_weights] in H1.
+  pose proof (step_exec e s (OUpdateConfig (t_mainver t) (t_all t))) as H1. cbn [forces_enable has_weights andb] in H1.
   destruct (step e s _) as [s1 x]. exact H1.
 Qed.
 
-Lemma handler_exec e t go s : work_plain t ->
+Lemma handler_exec e t go s : work_plain e t ->
   exec e false s (snd (fst (handler e t go s))) (fst (fst (handler e t go s))).
 Proof.
   intros Hw. unfold handler. destruct (t_kind t); try (apply run_work_exec; exact Hw).
@@ -54,10 +54,10 @@ Proof.
     eapply x_cons; [apply m_enable|exact H].
   - pose proof (step_exec e (set_enabled true s) (OReloadForBatch eb)) as H.
     destruct (step e (set_enabled true s) (OReloadForBatch eb)) as [s' x].
-    cbn [fst snd has_weights] in *. eapply x_cons; [apply m_enable|exact H].
+    cbn [fst snd forces_enable has_weights andb] in *. eapply x_cons; [apply m_enable|exact H].
 Qed.
 
-Lemma sync_exec e c t : work_plain t ->
+Lemma sync_exec e c t : work_plain e t ->
   exec e false (cfg c) (slog (snd (sync e c t))) (cfg (fst (sync e c t))).
 Proof.
   intros Hw. unfold sync.
@@ -78,7 +78,7 @@ Proof.
 Qed.
 
 Lemma run_sync_exec e ts : forall c,
-  (forall t, In t ts -> work_plain t) ->
+  (forall t, In t ts -> work_plain e t) ->
   exec e false (cfg c) (strace (snd (run_sync e c ts))) (cfg (fst (run_sync e c ts))).
 Proof.
   induction ts as [|t ts IH]; intros c Hw; cbn; [apply x_nil|].
@@ -94,7 +94,7 @@ Qed.
    start-up) and its EnableReloads -- provided no handler runs AddOrUpdateVirtualServer with
    weight updates *)
 Theorem ctl_no_reload_while_held_partial : forall e ts c,
-  (forall t, In t ts -> work_plain t) ->
+  (forall t, In t ts -> work_plain e t) ->
   held_scan (negb (enabled (cfg c))) (strace (snd (run_sync e c ts)))
   = Some (negb (enabled (cfg (fst (run_sync e c ts))))).
 Proof. intros e ts c Hw. apply (exec_held e). apply run_sync_exec. exact Hw. Qed.
@@ -178,15 +178,16 @@ Proof.
   cbn [snd slog reported swallowed].
   rewrite !existsb_app, E2, E3, E4.
   assert (H1 : existsb is_failed_reload (if start then [EDisable] else []) = false) by (destruct start; reflexivity).
-  rewrite H1. cbn. destruct rep2, rep3, rep4, sw4, (reports t), (t_all_reports t); reflexivity.
+  rewrite H1. cbn. destruct rep2, rep3, rep4, sw4, (reports e t), (t_all_reports t), (fx_batchrep (fx e)), (t_all t); reflexivity.
 Qed.
 
 (* a failure is swallowed only by the ReloadForBatchUpdates path at the end of a batch, or by a
    handler that has nothing to report on (endpointslice tasks; deletion of a vanished object) *)
 Theorem ctl_swallowed_only_there : forall e c t,
   swallowed (snd (sync e c t)) = true ->
-  (t_qlen t = 0 /\ batch c = true /\ batch (fst (sync e c t)) = false /\ uab (fst (sync e c t)) = false)
-  \/ reports t = false \/ t_all_reports t = false.
+  (t_qlen t = 0 /\ batch c = true /\ batch (fst (sync e c t)) = false /\
+   (fx_batchrep (fx e) = false \/ t_all t = []))
+  \/ reports e t = false \/ t_all_reports t = false.
 Proof.
   intros e c t. unfold sync.
   set (start := ready c && (1 <? t_qlen t)%nat && negb (batch c)).
@@ -194,7 +195,7 @@ Proof.
   set (batch1 := batch c || start).
   destruct (handler e t (ready c && negb batch1) cfg1) as [[cfg2 l2] f2].
   match goal with |- context [phase_fin e t ?f cfg2] => destruct (phase_fin e t f cfg2) as [[cfg3 l3] f3] end.
-  destruct (reports t) eqn:Rp; [|intros _; right; left; reflexivity].
+  destruct (reports e t) eqn:Rp; [|intros _; right; left; reflexivity].
   destruct (t_all_reports t) eqn:Ar; [|intros _; right; right; reflexivity].
   rewrite !andb_false_r. cbn [orb negb].
   unfold phase_end.
@@ -202,11 +203,44 @@ Proof.
   apply andb_prop in B. destruct B as [B1 B2]. apply Nat.eqb_eq in B2.
   destruct (uab c || is_cm_task (t_kind t) && batch1) eqn:U.
   - destruct (update_all e t (set_enabled true cfg3)) as [[s' l] r]. cbn. rewrite ?andb_false_r, ?orb_false_r. discriminate.
-  - destruct (step e (set_enabled true cfg3) _) as [s' x]. cbn. intros _. left.
-    repeat split; auto.
+  - destruct (step e (set_enabled true cfg3) _) as [s' x]. cbn. intros Hs. left.
+    split; [exact B2|]. split.
     + subst batch1 start. rewrite B2 in B1. cbn in B1. rewrite andb_false_r in B1. cbn in B1.
       rewrite orb_false_r in B1. exact B1.
-    + rewrite andb_false_r. reflexivity.
+    + split; [rewrite andb_false_r; reflexivity|].
+      rewrite ?andb_false_r, ?orb_false_l in Hs. cbn in Hs.
+      apply andb_prop in Hs. destruct Hs as [_ Hs]. apply negb_true_iff in Hs.
+      destruct (fx_batchrep (fx e)); [right|left; reflexivity].
+      destruct (t_all t); [reflexivity|discriminate].
+Qed.
+
+(* with F16c repaired the flag is down after every batch *)
+Theorem uab_reset_fixed : forall e c t,
+  fx_uab (fx e) = true -> batch c = true -> t_qlen t = 0 -> uab (fst (sync e c t)) = false.
+Proof.
+  intros e c t F Hb Hq. unfold sync. rewrite Hb, Hq, F.
+  destruct (handler e t _ _) as [[cfg2 l2] f2].
+  destruct (phase_fin e t _ cfg2) as [[cfg3 l3] f3].
+  destruct (phase_end e t _ _ _ cfg3) as [[[cfg4 l4] f4] f5].
+  cbn. apply andb_false_r.
+Qed.
+
+(* with F16b and F16d repaired, a failed Reload of a sync is reported whenever there is an
+   object to report on: the handler's resource still exists, and updateAllConfigs /
+   the end of the batch see at least one resource *)
+Theorem ctl_failure_reported_fixed : forall e c t,
+  fx_batchrep (fx e) = true -> fx_endprep (fx e) = true ->
+  (t_kind t = TOther -> t_reports t = true) -> t_all_reports t = true -> t_all t <> [] ->
+  let x := snd (sync e c t) in
+  reported x = existsb is_failed_reload (slog x) /\ swallowed x = false.
+Proof.
+  intros e c t F1 F2 Hr Ha Hn.
+  pose proof (ctl_failure_reported_or_swallowed e c t) as T.
+  pose proof (ctl_swallowed_only_there e c t) as S.
+  cbv zeta in *. destruct (swallowed (snd (sync e c t))) eqn:Sw.
+  - exfalso. destruct (S eq_refl) as [(_ & _ & _ & [H|H])|[H|H]]; try congruence.
+    unfold reports in H. destruct (t_kind t); try congruence. rewrite (Hr eq_refl) in H. discriminate.
+  - rewrite orb_false_r in T. split; [symmetry; exact T|reflexivity].
 Qed.
 
 (* ------------------------------------------------------------------ T3: the end of a batch *)
@@ -392,6 +426,7 @@ Definition idle_batch : list task := [mk_task TOther 0 [] false; mk_task TOther 
    and nothing was pending when it began, yet the draining sync reloads NGINX *)
 Theorem batch_end_only_if_refuted :
   exists e ts c1 xs x,
+    fx e = no_fixes /\
     run_sync e ctl_init ts = (c1, xs ++ [x]) /\
     dirty (cfg c1) = false /\
     existsb is_change (strace (skipn 1 (xs ++ [x]))) = false /\
@@ -400,21 +435,22 @@ Theorem batch_end_only_if_refuted :
 Proof.
   exists (env_ok false), idle_batch.
   remember (run_sync (env_ok false) ctl_init idle_batch) as r eqn:E. vm_compute in E. subst r.
-  eexists. eexists [_; _]. eexists. split; [cbn; reflexivity|]. vm_compute. repeat split; reflexivity.
+  eexists. eexists [_; _]. eexists. split; [reflexivity|]. split; [cbn; reflexivity|]. vm_compute. repeat split; reflexivity.
 Qed.
 
 (* F16b: a Reload that fails when the batch ends is not reported on any resource *)
 Theorem ctl_failure_propagates_refuted :
   exists e ts, let x := last (snd (run_sync e ctl_init ts)) {| slog := []; reported := false; swallowed := false |} in
-    existsb is_failed_reload (slog x) = true /\ reported x = false /\ swallowed x = true.
+    fx e = no_fixes /\ existsb is_failed_reload (slog x) = true /\ reported x = false /\ swallowed x = true.
 Proof.
-  exists {| plus := false; ro := fails_at [1]; ao := fun _ => true |}, idle_batch. vm_compute. repeat split; reflexivity.
+  exists {| plus := false; ro := fails_at [1]; ao := fun _ => true; fx := no_fixes |}, idle_batch. vm_compute. repeat split; reflexivity.
 Qed.
 
 (* F16c: updateAllConfigsOnBatch is never reset: after one batch that contained a ConfigMap
    task, every later batch ends by regenerating everything and reloading, even an idle one *)
 Theorem uab_sticky_refuted :
   exists e ts, let x := last (snd (run_sync e ctl_init ts)) {| slog := []; reported := false; swallowed := false |} in
+    fx e = no_fixes /\
     existsb (fun y => match y with EWrite FMain _ _ => true | _ => false end) (slog x) = true /\
     existsb is_change (slog x) = false /\ existsb is_reload (slog x) = true.
 Proof.
@@ -426,9 +462,9 @@ Qed.
 
 (* F15 at the controller: a VirtualServer task with weight updates inside a batch *)
 Theorem ctl_no_reload_while_held_refuted :
-  exists e ts, held_scan true (strace (snd (run_sync e ctl_init ts))) = None.
+  exists e ts, fx e = no_fixes /\ held_scan true (strace (snd (run_sync e ctl_init ts))) = None.
 Proof.
   exists (env_ok false),
     [mk_task TOther 0 [] false; mk_task TOther 2 [OAdd vs_with_weights] false; mk_task TOther 0 [] false].
-  vm_compute. reflexivity.
+  split; [reflexivity|]. vm_compute. reflexivity.
 Qed.
